@@ -26,7 +26,8 @@ RULE = ("bodies: random well-bracketed instruction lists (enter/exit of own acti
         "values (sent, yielded, returned) come from a pool compared by identity: None, small ints, a tuple, exception instances "
         "(also BaseException ones and the object used by throw) and an exception class used as plain data; "
         "1-4 generators, the script interleaves resumptions (send None/value, throw, close) with the driver entering/leaving up to 3 "
-        "surrounding actions; non-trivial = some generator is resumed from >= 2 different driver actions and observes its context; "
+        "surrounding actions; a quarter of the resumptions is made from another contextvars.Context than the driver's own "
+        "(copy_context().run, Context().run, another thread); non-trivial = some generator is resumed from >= 2 different driver actions and observes its context; "
         "distinct by canonical hash")
 TRUSTED = ["CPython's generator protocol and contextvars (Context.run, copy_context, Token) are modelled (Gen.proto, World), validated by the 3-way comparison",
            "the body interpreter (one real generator function that walks the instruction list) stands for arbitrary generator bodies"]
@@ -130,7 +131,11 @@ def gen_case(rng, big):
             i = rng.randrange(ngen)
             inp = gen_inp(rng, 0.92 if i not in started else 0.4)
             started.add(i)
-            script.append(["resume", i, inp])
+            step = ["resume", i, inp]
+            if rng.random() < 0.25:
+                # the resumption is made from another contextvars.Context than the driver's own
+                step.append(rng.choice(["copy", "fresh", "thread"]))
+            script.append(step)
     return dict(gens=gens, script=script, family=family)
 
 
@@ -233,6 +238,35 @@ def do_resume(env, g, inp):
         return {"r": from_val(env, s.value)}, None
     except BaseException as e:  # noqa  - an observation, never a harness crash
         return {"x": exc_name(env, e)}, e
+
+
+def resume_via(env, g, inp, via):
+    """resume g from the driver's own Context (via None), from a copy of it (`copy_context().run(g.send, v)`),
+    from an empty one (`Context().run(...)`) or from another thread"""
+    import contextvars
+    import threading
+    from eliot import current_action
+
+    box = {}
+
+    def go():
+        env.pending_base = aid(env, current_action())
+        box["out"] = do_resume(env, g, inp)[0]
+
+    try:
+        if via is None:
+            go()
+        elif via == "copy":
+            contextvars.copy_context().run(go)
+        elif via == "fresh":
+            contextvars.Context().run(go)
+        else:
+            t = threading.Thread(target=go, daemon=True)
+            t.start()
+            t.join(20)
+    except BaseException as e:  # noqa - an observation
+        return {"x": "harness:%s" % type(e).__name__}
+    return box.get("out", {"x": "harness:no-result"})
 
 
 def body(env, i, code):
@@ -364,8 +398,7 @@ def _run_real(case, wrapped):
                 if stack:
                     stack.pop().__exit__(None, None, None)
             else:
-                env.pending_base = aid(env, before)
-                out, _e = do_resume(env, env.gens[s[1]], s[2])
+                out = resume_via(env, env.gens[s[1]], s[2], s[3] if len(s) > 3 else None)
                 env.events.append(dict(kind="top", gen=s[1], out=out))
             after = current_action()
             steps.append(dict(out=out, before=aid(env, before), after=aid(env, after), same=before is after))
@@ -470,6 +503,13 @@ def evaluate(ctx, cases, tag):
     for n, c in enumerate(cases):
         plain = run_real(c, False)
         wrapped = run_real(c, True)
+        # reference for transparency: the undecorated generators driven from the driver's own Context only (a plain
+        # generator resumed from several Contexts is not a reference: its actions cannot even be left there)
+        if any(len(s) > 3 for s in c["script"]):
+            plain_ref = run_real(dict(c, script=[s[:3] for s in c["script"]]), False)
+            ctx.count("resumed-from-other-context", n=sum(1 for s in c["script"] if len(s) > 3))
+        else:
+            plain_ref = plain
         m_plain, m_wrapped = model[2 * n], model[2 * n + 1]
         # non-triviality: a generator resumed from >= 2 distinct driver actions that observes its context
         froms = {}
@@ -484,7 +524,7 @@ def evaluate(ctx, cases, tag):
                  + (["nested"] if wrapped.get("nested") else []))
         ctx.count("resumptions", n=sum(1 for s in c["script"] if s[0] == "resume"))
         ctx.count("observations", n=len(wrapped.get("obs", [])))
-        oracle(ctx, c, plain, wrapped)
+        oracle(ctx, c, plain_ref, wrapped)
         if "bad" in m_plain or "bad" in m_wrapped:
             ctx.broken_tie("correspondence:generator-model", "model rejected the case: %s" % (m_plain.get("bad") or m_wrapped.get("bad")), strip(c))
             continue
@@ -524,6 +564,11 @@ ALPHABET = [["enter", 1], ["exit"], ["resume", 0, ["send", None]], ["resume", 0,
 # minimal / hand-picked cases, run first (so that a replay file shows the smallest failing input)
 CORPUS = [
     dict(gens=[[["ret", 7]]], script=[["resume", 0, ["send", None]]], family="corpus"),
+    # an action spans a yield and the next resumption comes from another Context / another thread
+    dict(gens=[[["enter", 11], ["log", 1], ["yield", 1], ["log", 2], ["exit"], ["log", 3], ["yield", 2]]],
+         script=[["enter", 1], ["resume", 0, ["send", None]], ["resume", 0, ["send", None], "copy"]], family="corpus"),
+    dict(gens=[[["enter", 11], ["yield", 1], ["exit"], ["enter", 12], ["yield", 2], ["exit"], ["log", 3]]],
+         script=[["resume", 0, ["send", None], "fresh"], ["enter", 2], ["resume", 0, ["send", None], "thread"], ["resume", 0, ["send", None]]], family="corpus"),
     # GeneratorExit that is thrown in explicitly, or raised by the body itself, comes out as GeneratorExit (only close() absorbs it);
     # BaseException-only objects pass `except <application exception>` and come out by identity
     dict(gens=[[["yield", 1], ["yield", 2]]], script=[["resume", 0, ["send", None]], ["resume", 0, ["throw", 5]], ["resume", 0, ["send", None]]], family="corpus"),
@@ -568,7 +613,8 @@ def run(ctx):
 def replay(ctx, obj):
     case = obj.get("case") or {}
     c = dict(gens=case["gens"], script=case["script"])
-    plain = run_real(c, False)
+    # reference: the undecorated generators driven from the driver's own Context only
+    plain = run_real(dict(c, script=[s[:3] for s in c["script"]]), False)
     wrapped = run_real(c, True)
     print("plain  :", plain.get("events"))
     print("wrapped:", wrapped.get("events"))
